@@ -508,6 +508,8 @@ public:
 
     if (inst_id == Inst::kIdShr && b.is_reg()) {
       cc->emit(inst_id, a, b.as<Gp>().r8());
+      // A shift by zero doesn't update the flags.
+      cc->test(a.as<Gp>(), a.as<Gp>());
       return;
     }
 
